@@ -29,28 +29,28 @@ func Abs(ctx *expr.Context, input system.Collection, args ...expr.Expression) (s
 		return nil, fmt.Errorf("%w: received %v arguments, expected 0", ErrWrongArity, len(args))
 	}
 
-	switch input[0].(type) {
+	if !input.IsSingleton() {
+		return nil, errors.New("invalid input, is not a singleton")
+	}
+	// FHIR primitives (integer, positiveInt, unsignedInt, decimal, Quantity) are numbers too.
+	value, err := system.From(input[0])
+	if err != nil {
+		return nil, errors.New("input is not a number")
+	}
+	switch number := value.(type) {
 	case system.Integer:
-		// Input type conversion to int32
-		number, err := input.ToInt32()
-		if err != nil {
-			return nil, err
+		if number == math.MinInt32 {
+			return system.Collection{}, nil // 2^31 is not representable: overflow results in empty ( { } ).
 		}
-		// Absolution number
-		res := math.Abs(float64(number))
-		return system.Collection{system.Integer(res)}, nil
+		if number < 0 {
+			number = -number
+		}
+		return system.Collection{number}, nil
 	case system.Decimal:
-		// Input type conversion to float64
-		number, err := input.ToFloat64()
-		if err != nil {
-			return nil, err
-		}
-		// Absolution number
-		res := math.Abs(number)
-		result := decimal.NewFromFloat(res)
-		return system.Collection{system.Decimal(result)}, nil
+		// exact: a float64 keeps 15-17 significant digits only.
+		return system.Collection{system.Decimal(decimal.Decimal(number).Abs())}, nil
 	case system.Quantity:
-		quantity := strings.Split(input[0].(system.Quantity).String(), " ")
+		quantity := strings.Split(number.String(), " ")
 		// Input type conversion
 		f, err := strconv.ParseFloat(quantity[0], 64)
 		if err != nil {
@@ -74,14 +74,7 @@ func Ceiling(ctx *expr.Context, input system.Collection, args ...expr.Expression
 	if len(args) != 0 {
 		return nil, fmt.Errorf("%w: received %v arguments, expected 0", ErrWrongArity, len(args))
 	}
-	// Input type conversion to float64
-	number, err := input.ToFloat64()
-	if err != nil {
-		return nil, err
-	}
-	// Ceiling number
-	result := math.Ceil(number)
-	return system.Collection{system.Integer(result)}, nil
+	return toInteger(input, decimal.Decimal.Ceil)
 }
 
 // Exp returns e raised to the power of the input.
@@ -117,14 +110,7 @@ func Floor(ctx *expr.Context, input system.Collection, args ...expr.Expression) 
 	if len(args) != 0 {
 		return nil, fmt.Errorf("%w: received %v arguments, expected 0", ErrWrongArity, len(args))
 	}
-	// Input type conversion to float64
-	number, err := input.ToFloat64()
-	if err != nil {
-		return nil, err
-	}
-	// Flooring number
-	result := math.Floor(number)
-	return system.Collection{system.Integer(result)}, nil
+	return toInteger(input, decimal.Decimal.Floor)
 }
 
 // Ln returns the natural logarithm of the input number.
@@ -278,10 +264,10 @@ func Round(ctx *expr.Context, input system.Collection, args ...expr.Expression) 
 		return nil, err
 	}
 	// Rounding number
-	switch value.(type) {
+	switch value := value.(type) {
 	case system.Decimal:
-		res, _ := input[0].(system.Decimal)
-		result := res.Round(precision)
+		// round the converted value: the input may be a FHIR decimal element
+		result := value.Round(precision)
 		return system.Collection{result}, nil
 	case system.Integer:
 		number, err := input.ToInt32()
@@ -332,14 +318,32 @@ func Truncate(ctx *expr.Context, input system.Collection, args ...expr.Expressio
 	if len(args) != 0 {
 		return nil, fmt.Errorf("%w: received %v arguments, expected 0", ErrWrongArity, len(args))
 	}
-	// Input type conversion to float64
-	number, err := input.ToFloat64()
+	return toInteger(input, func(d decimal.Decimal) decimal.Decimal { return d.Truncate(0) })
+}
+
+// toInteger applies an integer-valued rounding (ceiling, floor, truncate) to the
+// singleton Integer or Decimal input, computed exactly on the decimal value.
+// A result outside the Integer range yields empty ( { } ).
+func toInteger(input system.Collection, round func(decimal.Decimal) decimal.Decimal) (system.Collection, error) {
+	item, err := input.ToSingleton()
 	if err != nil {
 		return nil, err
 	}
-	// Ceiling number
-	result := math.Trunc(number)
-	return system.Collection{system.Integer(result)}, nil
+	value, err := system.From(item)
+	if err != nil {
+		return nil, err
+	}
+	switch number := value.(type) {
+	case system.Integer:
+		return system.Collection{number}, nil
+	case system.Decimal:
+		result := round(decimal.Decimal(number)).BigInt()
+		if !result.IsInt64() || result.Int64() < math.MinInt32 || result.Int64() > math.MaxInt32 {
+			return system.Collection{}, nil
+		}
+		return system.Collection{system.Integer(int32(result.Int64()))}, nil
+	}
+	return nil, fmt.Errorf("input is not a number: %T", item)
 }
 
 func logToBase(number, base float64) float64 {
